@@ -132,7 +132,14 @@ func DefaultHandler(routeID string, req *restful.Request, resp *restful.Response
 // NewService builds one WebService from its spec.
 func NewService(s model.ServiceSpec, rec *Recorder, h RouteHandler) *restful.WebService {
 	ws := new(restful.WebService)
-	ws.Path(s.Root.String())
+	switch {
+	case s.RootForm == 2 && len(s.Root) == 0:
+		// no Path() call at all
+	case s.RootForm == 1 && len(s.Root) > 0:
+		ws.Path(s.Root.String() + "/")
+	default:
+		ws.Path(s.Root.String())
+	}
 	if s.Dynamic {
 		ws.SetDynamicRoutes(true)
 	}
@@ -163,13 +170,31 @@ func RoutePathString(t model.Template) string {
 	return t.String()
 }
 
+// RoutePathForm renders the relative path in one of the spellings users write.
+func RoutePathForm(t model.Template, form int) string {
+	if len(t) == 0 {
+		if form == 1 || form == 3 {
+			return "/"
+		}
+		return ""
+	}
+	s := t.String()
+	if form == 2 || form == 3 {
+		s = s[1:]
+	}
+	if (form == 1 || form == 3) && t[len(t)-1].Verb == "" {
+		s += "/"
+	}
+	return s
+}
+
 // NewRoute creates the RouteBuilder for a route spec.
 func NewRoute(ws *restful.WebService, r model.RouteSpec, rec *Recorder, h RouteHandler) *restful.RouteBuilder {
 	if h == nil {
 		h = DefaultHandler
 	}
 	id := r.ID
-	rb := ws.Method(r.Method).Path(RoutePathString(r.Path)).Doc(id)
+	rb := ws.Method(r.Method).Path(RoutePathForm(r.Path, r.PathForm)).Doc(id)
 	if len(r.Consumes) > 0 {
 		rb.Consumes(r.Consumes...)
 	}
